@@ -3,8 +3,9 @@
    gen_assembly is regenerated from main.go and the route tables on every run (translate/gen_routes);
    an environment `env` assigns a truth value to every condition atom of the assembly (cors enabled, mode == ...,
    ownHttpServer, ...); "credentials configured" = the atoms of gen_must (login non-empty, password non-empty). *)
-From Coq Require Import List String Ascii Bool NArith.
+From Coq Require Import List String Ascii Bool NArith ZArith.
 From Qryn Require Import model.Auth model.Router model.RotateCfg model.AuthEnv proofs.AuthProofs proofs.B64Inv proofs.RoutesProofs proofs.AuthEnvProofs gen.GenRoutes.
+From Qryn Require Import model.GzipWriter proofs.GzipWriterProofs.
 Import ListNotations.
 Open Scope string_scope.
 
@@ -253,3 +254,41 @@ Theorem environment_credentials_are_the_configured_ones : forall e file preset c
               else if nonempty (getenv e "QRYN_PASSWORD") then getenv e "QRYN_PASSWORD" else a_pass file).
 Proof. exact port_env_credentials. Qed.
 Print Assumptions environment_credentials_are_the_configured_ones.
+
+(* The configuration in which main installs no BasicAuth although a login is set (login_without_password_is_open) cannot
+   arise from a configured non-empty password: after portEnv the password is empty exactly when CLOKI_PASSWORD,
+   QRYN_PASSWORD and the file's password are all empty (and likewise the login); a value consisting of blanks, quotes
+   or anything else is kept byte for byte (environment_credentials_are_the_configured_ones).  The configuration FILE
+   reader (cloki-config: viper, not qryn's code) is driven by the harness the way main drives it on generated files and
+   must hand the texts over unchanged (obligation of the check). *)
+Theorem configured_password_is_never_emptied : forall e file preset c, port_env e file preset = Some c ->
+  (a_pass c = "" <-> getenv e "CLOKI_PASSWORD" = "" /\ getenv e "QRYN_PASSWORD" = "" /\ a_pass file = "") /\
+  (a_user c = "" <-> getenv e "CLOKI_LOGIN" = "" /\ getenv e "QRYN_LOGIN" = "" /\ a_user file = "").
+Proof. exact password_never_emptied. Qed.
+Print Assumptions configured_password_is_never_emptied.
+
+(* ------------------------------------------------------------------ the compression wrapper's ResponseWriter
+   model/GzipWriter.v: AcceptEncodingMiddleware + gzipResponseWriter as the calls reaching the underlying writer for any
+   sequence of WriteHeader / Write calls the handler behind it makes (compared call by call with the real code). *)
+
+(* A refusal behind the wrapper -- WriteHeader of a non-2xx status first, as BasicAuth's http.Error does, then anything:
+   the wire sees exactly that WriteHeader and then the handler's writes one by one, byte-identical, never marked gzip,
+   nothing buffered, nothing added when the wrapper closes (later WriteHeader calls are dropped, as net/http would). *)
+Theorem compression_wrapper_forwards_a_refusal : forall c rest, ok2xx c = false ->
+  accept_encoding true (AHeader c :: rest) = map direct (AHeader c :: writes_only rest).
+Proof. exact refusal_passes_unchanged. Qed.
+Print Assumptions compression_wrapper_forwards_a_refusal.
+
+(* Whatever the handler behind it does, the status line on the wire is the first status that handler chose (200 if it
+   only wrote or did nothing): the wrapper cannot turn a refusal into a success nor a success into something else ... *)
+Theorem compression_wrapper_keeps_the_first_status : forall next,
+  wire_status (accept_encoding true next) = Some (match first_status next with Some c => c | None => 200%Z end).
+Proof. exact wire_status_is_first_status. Qed.
+Print Assumptions compression_wrapper_keeps_the_first_status.
+
+(* ... and it never answers on its own: a handler that did nothing gives what net/http sends anyway (200, no body);
+   without "gzip" in Accept-Encoding nothing reaches the writer at all. *)
+Theorem compression_wrapper_never_answers_itself :
+  accept_encoding true [] = [UHeader 200%Z false; UGzip false false] /\ accept_encoding false [] = [].
+Proof. exact idle_next. Qed.
+Print Assumptions compression_wrapper_never_answers_itself.
